@@ -65,7 +65,7 @@ def text_of(seq):
     return ''.join(map(chr, seq))
 
 
-def make_cases(tbl, seed, k_random):
+def make_cases(tbl, seed, k_random, k_corrupt):
     """Concrete inputs for the model: per row, payload classes {zeros, ones, seeded random x K} to encode, and
     corruptions of one valid text to decode."""
     cases = []   # (tla_value, meta)
@@ -76,33 +76,34 @@ def make_cases(tbl, seed, k_random):
         for cls, p in payloads:
             ck = b58ref.cksum(bp + p)
             cases.append((('enc', tuple(hp), tuple(p), tuple(ck)), {'kind': 'enc', 'row': i, 'cls': cls, 'payload': p}))
-        p = payloads[2][1]
-        s = b58ref.b58check(bp, p)
-        al = b58ref.ALPHABET
-        n = len(hp)
-        others = [r for j, r in enumerate(tbl) if j != i and r[0] != hp]
-        same_len = [r for r in others if r[1] == elen and len(r[0]) == n] or [r for r in others if len(r[0]) == n] or others
-        other = same_len[rng.randrange(len(same_len))]
-        pos = rng.randrange(n, len(s))
-        ppos = rng.randrange(0, n)
-        badck = bytes([b58ref.cksum(bp + p)[0] ^ 1]) + b58ref.cksum(bp + p)[1:]
-        unknown = bytes([255] * len(bp))
-        corr = [
-            ('valid', s),
-            ('one-char', s[:pos] + al[(al.index(s[pos]) + 1 + rng.randrange(57)) % 58] + s[pos + 1:]),
-            ('prefix-char', s[:ppos] + al[(al.index(s[ppos]) + 1 + rng.randrange(57)) % 58] + s[ppos + 1:]),
-            ('truncated', s[:-1]),
-            ('extended', s + al[rng.randrange(58)]),
-            ('spliced-prefix', other[0].decode() + s[len(other[0]):]),
-            ('bad-checksum', b58ref.b58(bp + p + badck)),
-            ('non-alphabet', s[:pos] + '0Il'[rng.randrange(3)] + s[pos + 1:]),
-            ('short-payload', b58ref.b58check(bp, p[:-1])),
-            ('long-payload', b58ref.b58check(bp, p + b'\x00')),
-            ('unknown-binary-prefix', b58ref.b58check(unknown, p)),
-            ('neighbour-binary-prefix', b58ref.b58check(bp[:-1] + bytes([(bp[-1] + (1 if i % 2 else 255)) % 256]), p)),
-        ]
-        for name, txt in corr:
-            cases.append((('dec', tuple(txt.encode())), {'kind': 'dec', 'row': i, 'cls': name, 'text': txt}))
+        for base in range(min(k_corrupt, k_random)):
+            p = payloads[2 + base][1]
+            s = b58ref.b58check(bp, p)
+            al = b58ref.ALPHABET
+            n = len(hp)
+            others = [r for j, r in enumerate(tbl) if j != i and r[0] != hp]
+            same_len = [r for r in others if r[1] == elen and len(r[0]) == n] or [r for r in others if len(r[0]) == n] or others
+            other = same_len[rng.randrange(len(same_len))]
+            pos = rng.randrange(n, len(s))
+            ppos = rng.randrange(0, n)
+            badck = bytes([b58ref.cksum(bp + p)[0] ^ 1]) + b58ref.cksum(bp + p)[1:]
+            unknown = bytes([255] * len(bp))
+            corr = [
+                ('valid', s),
+                ('one-char', s[:pos] + al[(al.index(s[pos]) + 1 + rng.randrange(57)) % 58] + s[pos + 1:]),
+                ('prefix-char', s[:ppos] + al[(al.index(s[ppos]) + 1 + rng.randrange(57)) % 58] + s[ppos + 1:]),
+                ('truncated', s[:-1]),
+                ('extended', s + al[rng.randrange(58)]),
+                ('spliced-prefix', other[0].decode() + s[len(other[0]):]),
+                ('bad-checksum', b58ref.b58(bp + p + badck)),
+                ('non-alphabet', s[:pos] + '0Il'[rng.randrange(3)] + s[pos + 1:]),
+                ('short-payload', b58ref.b58check(bp, p[:-1])),
+                ('long-payload', b58ref.b58check(bp, p + b'\x00')),
+                ('unknown-binary-prefix', b58ref.b58check(unknown, p)),
+                ('neighbour-binary-prefix', b58ref.b58check(bp[:-1] + bytes([(bp[-1] + (1 if i % 2 else 255)) % 256]), p)),
+            ]
+            for name, txt in corr:
+                cases.append((('dec', tuple(txt.encode())), {'kind': 'dec', 'row': i, 'cls': name, 'text': txt}))
     return cases
 
 
@@ -215,18 +216,18 @@ def verdict_of(tbl, res):
 
 def run(ctx):
     tbl = table()
-    k_random = 1 if ctx.quick else 4
+    k_random, k_corrupt = (1, 1) if ctx.quick else (12, 3)
     classes = ['zero', 'ones'] if ctx.quick else ['zero', 'ones', 'zero-ff', 'ones-00', 'low', 'high', 'mid']
-    ctx.rule = ('kind table read from the running code (%d rows); Leg A: TLC encodes, per row, the payload/checksum classes %s and every concrete case digit by digit and '
+    ctx.rule = ('kind table read from the running code (%d rows); Leg A: TLC encodes, per row, the payload/checksum classes %s and every concrete case three digits per step and '
                 'checks the end points, the shape of every encoding, invertibility and that the (length, human prefix) decoder accepts exactly the encodings; '
-                'Leg B: per row payloads {zeros, ones, %d seeded random} are encoded and 12 corruption classes of a valid text are decoded by the model, the checksum '
+                'Leg B: per row payloads {zeros, ones, %d seeded random} are encoded and 12 corruption classes of %d valid text(s) per row are decoded by the model, the checksum '
                 'is interpreted with hashlib, and base58_encode / base58_decode / is_* are compared with the model; non-trivial = every case (distinct row x payload / text)'
-                % (len(tbl), classes, k_random))
+                % (len(tbl), classes, k_random, k_corrupt))
     ctx.assumptions = ['Cksum is uninterpreted in the spec and interpreted by hashlib sha256(sha256(.))[:4] in the harness',
                        'the table (human prefix, lengths, binary prefix) is the code\'s own documentation; binary prefixes are only checked to produce the documented human prefix',
                        'texts whose length and human prefix are a kind\'s and whose checksum is right but whose bytes do not carry the kind\'s binary prefix / byte length are not compared (the statement does not decide them)',
                        'is_public_key is not compared on secret-key kinds']
-    cases = make_cases(tbl, ctx.seed, k_random)
+    cases = make_cases(tbl, ctx.seed, k_random, k_corrupt)
     rows_v = to_tla(tuple((tuple(hp), elen, tuple(bp), plen) for hp, elen, bp, plen, _ in tbl))
     cases_v = '<<' + ',\n  '.join(to_tla(c[0]) for c in cases) + '>>'
     # claims about the table, computed with the independent encoder and verified by TLC (invariant ClaimsRight)
@@ -246,7 +247,11 @@ def run(ctx):
     tables = [v for v in outs if v[1] == 'table']
     if len(tables) != 1:
         raise MachineryError('expected one table record from TLC, got %d' % len(tables))
-    _, _, facts, overlaps, encdups, badchars = tables[0]
+    _, _, overlaps, encdups, badchars = tables[0]
+    ends = {(v[2], v[3]): v for v in outs if v[1] == 'end'}
+    if sorted(ends) != [(i, b) for i in range(1, len(tbl) + 1) for b in (0, 255)]:
+        raise MachineryError('TLC exported %d of %d end points' % (len(ends), 2 * len(tbl)))
+    facts = [(ends[(i, 0)][4], ends[(i, 255)][4], ends[(i, 0)][5], ends[(i, 255)][5], ends[(i, 0)][6]) for i in range(1, len(tbl) + 1)]
     row_ok = []
     if {i + 1 for i, row in enumerate(tbl) if tuple(facts[i]) == (row[1], row[1], True, True, True)} != ok_rows or table_ok != (not overlaps and not encdups):
         raise MachineryError('the table facts computed by TLC differ from the independent encoder\'s claims')
@@ -326,7 +331,7 @@ META = {
              '(length, human prefix) decoder accepts exactly the encodings. Concrete payloads and corrupted texts are run through the same model; its texts and '
              'verdicts (checksum interpreted by hashlib) are compared with base58_encode, base58_decode and the is_* validators.'),
     'design_ref': 'DESIGN.md section 5 C09',
-    'note': ('Trusted: table extraction, hashlib interpretation of the checksum, corruption generator. Per row: payloads zeros / ones / seeded random (1 quick, 4 thorough), '
-             '12 corruption classes. Binary prefixes are taken from the code and only checked against the documented human prefix.'),
+    'note': ('Trusted: table extraction, hashlib interpretation of the checksum, corruption generator. Per row: payloads zeros / ones / seeded random (1 quick, 12 thorough), '
+             '12 corruption classes of 1 (3) valid texts per row; the digit-by-digit definitions are compared on the lower end points (quick) / on every input (thorough). Binary prefixes are taken from the code and only checked against the documented human prefix.'),
     'technique': 'TLA+ spec + TLC exhaustive model checking over the table; model-evaluated cases replayed into base58_encode / base58_decode / is_*',
 }
